@@ -47,8 +47,8 @@ func (f *verifFaulty) hit(op, path string) string {
 var errInjected = errors.New("injected storage fault")
 
 type failingReader struct {
-	r     io.ReadCloser
-	left  int
+	r    io.ReadCloser
+	left int
 }
 
 func (fr *failingReader) Read(p []byte) (int, error) {
